@@ -267,26 +267,42 @@ def run(tier, seed, replay):
                 ("%envInt(\"GV_NOPE\", 7)%", ("I", "7")), ("%envInt(\"GV_NOPE\")%", ("E", None)), ("%envInt(\"GV_Z\")%", ("I", "7")), ("%envInt(\"GV_NEG0\")%", ("I", "0")),
                 ("%envInt(\"GV_PLUS\")%", ("I", "5")), ("%envInt(\"GV_BIG\")%", ("E", None)), ("%envInt(\"GV_MIN\")%", ("I", "-9223372036854775808")), ("%envInt(\"GV_EMPTY\")%", ("E", None)),
                 ("%envInt(\"GV_EMPTY\", 3)%", ("E", None)), ("x%env(\"GV_SET\")%y%envInt(\"GV_INT\")%", ("S", "x" + E["GV_SET"] + "y42")), ("%todo()%", ("E", None)), ("%todo(\"msg\")%", ("E", None)),
+                ("%todo(\"50\\x25 of the disk\")%", ("Emsg", "50% of the disk")), ("%todo(\"100\\u0025d done, 5\\x25s left\")%", ("Emsg", "100%d done, 5%s left")),
+                ("x %todo(\"\\x25v\\x25!\")% y", ("Emsg", "%v%!")), ("%todo(\"plain message\")%", ("Emsg", "plain message")), ("%todo()%", ("Emsg", "parameter todo")),
                 ("pre %env(\"GV_NOPE\")%", ("E", None)), ("%env(\"GV_NOPE\")% post", ("E", None)), ("%env(\"GV_SET\")%%env(\"GV_NOPE\")%", ("E", None))]
-        ecfg = {"parameters": {"e%d" % i: t for i, (t, _) in enumerate(ENVT)}}
+        esc_rows = [i for i, (t, _) in enumerate(ENVT) if "\\" in t]
+        ecfg = {"parameters": {"e%d" % i: ("%todo(\"placeholder\")%" if i in esc_rows else t) for i, (t, _) in enumerate(ENVT)}}
         esp = common.mk_spec(0, [ecfg], keep_out=True)
         esp["cfg"] = ecfg
         esp["what"] = ["runtime-env-table"]
         eh = [{"op": "param", "name": "e%d" % i} for i in range(len(ENVT))]
+        # (Go escape sequences inside the argument text of a token are not interpreted by the run-time model - the text is opaque to it:
+        # the rows that use them are decided by this table alone)
+        ecfg2 = {"parameters": {"e%d" % i: ENVT[i][0] for i in esc_rows}}
+        esp2 = common.mk_spec(0, [ecfg2], keep_out=True)
+        esp2["cfg"] = ecfg2
+        esp2["what"] = ["runtime-env-table-escapes"]
+        eh2 = [{"op": "param", "name": "e%d" % i} for i in esc_rows]
+        eobs2, erl2, _, eacc2 = rtcommon.run_histories(out, tooldir, env, [esp2], [eh2], "C03 todo messages with Go escapes", "C03", compare=False)
         eobs, erl, _, eacc = rtcommon.run_histories(out, tooldir, env, [esp], [eh], "C03 env/envInt/todo table", "C03")
+        if 0 in eacc and 0 in eacc2:
+            for j, i in enumerate(esc_rows):
+                erl[0][i] = erl2[0][j]
+        elif 0 not in eacc2:
+            out.violation("env-table:rejected", "todo messages written with Go escapes are rejected: %s" % ((eobs2[0].get("errors") or [])[:3],), common.slim(esp2, eobs2[0]))
         dist["env_table"] = 0
         if 0 in eacc:
             for (tok, (kind, val)), o, line in zip(ENVT, eh, erl[0]):
                 dist["env_table"] += 1
-                ok = (kind == "E" and line.startswith("E(")) or (kind == "S" and line == "S(%s)" % _rt.esc(val)) or (kind == "I" and line == "I(int,%s)" % val)
-                if kind == "E" and ok:
+                ok = (kind == "E" and line.startswith("E(")) or (kind == "Emsg" and line.startswith("E(") and line.endswith(_rt.esc(val) + ")")) or (kind == "S" and line == "S(%s)" % _rt.esc(val)) or (kind == "I" and line == "I(int,%s)" % val)
+                if kind in ("E", "Emsg") and ok:
                     # a failing function yields an error naming the token: the text of (one of) the pattern's function chunks occurs in it
                     import re as _re2
                     toks = _re2.findall(r"%[A-Za-z]+\([^%]*\)%", tok)
                     if toks and not any(_rt.esc(t_) in line for t_ in toks):
                         ok = False
                 if not ok:
-                    out.violation("env-table:%s" % tok[:40], "GetParam of %r returns %s, documented: %s" % (tok, line[:200], "an error" if kind == "E" else ("the string %r" % val if kind == "S" else "the int " + val)),
+                    out.violation("env-table:%s" % tok[:40], "GetParam of %r returns %s, documented: %s" % (tok, line[:200], "an error" if kind == "E" else ("an error ending with the message %r" % val if kind == "Emsg" else "the string %r" % val if kind == "S" else "the int " + val)),
                                   dict(common.slim(esp, eobs[0]), history=[o]))
         else:
             out.violation("env-table:rejected", "the env/envInt/todo table configuration is rejected: %s" % ((eobs[0].get("errors") or [])[:3],), common.slim(esp, eobs[0]))
